@@ -378,6 +378,47 @@ func checkPermutation(t *vlib.T, n int) {
 			r.fail("PermTo-uniform", k, "permutation %s arises on %d of %d answer sequences, want %d", k, c, total, total/fact)
 		}
 	}
+	// reused generator: the index vector persists between calls; after a first call with fixed
+	// answers the second call must still give every permutation equally often
+	if depth > 0 {
+		second := map[string]int{}
+		tot2 := 0
+		first := make([]int, depth)
+		for i := range first {
+			first[i] = (7*i + 5) % K
+		}
+		odometer(K, depth, func(idx []int) {
+			src := newScript(K, append(append([]int(nil), first...), idx...)...)
+			p := distmat.NewUniformPermutation(src)
+			p.PermTo(mat.NewDense(n, n, nil))
+			dst := mat.NewDense(n, n, nil)
+			p.PermTo(dst)
+			key := ""
+			for i := 0; i < n; i++ {
+				ones := 0
+				for j := 0; j < n; j++ {
+					if dst.At(i, j) == 1 {
+						ones++
+						key += fmt.Sprint(j)
+					} else if dst.At(i, j) != 0 {
+						ones = 99
+					}
+				}
+				if ones != 1 {
+					r.fail("PermTo reused generator", fmt.Sprint(idx), "row %d of the second matrix is not a unit row", i)
+				}
+			}
+			second[key]++
+			tot2++
+		})
+		for k, c := range second {
+			if c*fact != tot2 || len(second) != fact {
+				r.fail("PermTo reused generator: uniform", k, "%d of %d (%d distinct)", c, tot2, len(second))
+				break
+			}
+		}
+		total += tot2
+	}
 	t.Count("rand_paths", int64(total))
 	t.Outcome(fmt.Sprintf("n=%d perms=%d", n, len(counts)))
 }
